@@ -110,6 +110,7 @@ type FuncContract struct {
 	Loops      map[int]*LoopContract
 	CallGhost  []CallGhost
 	CallAssert []CallAssert
+	CallAssume []CallAssert
 	RetGhost   []GhostUpdate
 	EntryGhost []GhostUpdate
 	Pure       bool
@@ -145,6 +146,7 @@ type ContractFile struct {
 	Lemmas  []*LemmaDef
 	Trusted []string // text of every trusted declaration (for the evidence)
 	Guarded []GuardDecl
+	NonNil  []string // "pkg.Type.Field": trusted facts that a pointer/interface field is never nil
 }
 
 // GuardDecl: //@ guarded_by Type.mu: field1, field2 [; exempt fn1, fn2]
@@ -188,7 +190,7 @@ func parseContractFile(path, pkg string) (*ContractFile, error) {
 	// join continuation lines: a line that does not start with a keyword continues the previous one
 	kw := map[string]bool{"func": true, "requires": true, "ensures": true, "assigns": true, "ghost": true, "ghostparam": true,
 		"loop": true, "call": true, "trusted": true, "pred": true, "lemma": true, "pure": true, "maypanic": true,
-		"guarded_by": true, "return": true, "note": true, "entry": true, "upred": true, "holds": true, "keeps": true, "assume": true}
+		"guarded_by": true, "return": true, "note": true, "entry": true, "upred": true, "holds": true, "keeps": true, "assume": true, "nonnil": true}
 	var joined []rawLine
 	for _, r := range raws {
 		first := r.text
@@ -350,12 +352,17 @@ func parseContractFile(path, pkg string) (*ContractFile, error) {
 				cs = cs[:i]
 			}
 			k, body := splitWord(rest2)
-			if k == "assert" {
+			if k == "assert" || k == "assume" {
 				e, err := parseExpr(body)
 				if err != nil {
 					return nil, fail(err)
 				}
-				cur.CallAssert = append(cur.CallAssert, CallAssert{Callee: cs, Ordinal: ord, C: Clause{Text: body, E: e, Line: r.line}})
+				ca := CallAssert{Callee: cs, Ordinal: ord, C: Clause{Text: body, E: e, Line: r.line}}
+				if k == "assert" {
+					cur.CallAssert = append(cur.CallAssert, ca)
+				} else {
+					cur.CallAssume = append(cur.CallAssume, ca)
+				}
 				continue
 			}
 			if k != "ghost" {
@@ -386,6 +393,13 @@ func parseContractFile(path, pkg string) (*ContractFile, error) {
 				return nil, fail(err)
 			}
 			cur.RetGhost = append(cur.RetGhost, u)
+		case "nonnil":
+			for _, a := range strings.Split(rest, ",") {
+				if a = strings.TrimSpace(a); a != "" {
+					cf.NonNil = append(cf.NonNil, a)
+				}
+			}
+			cur = nil
 		case "upred":
 			// upred name(x T, y U): an uninterpreted (abstract) predicate
 			i := strings.Index(rest, "(")
